@@ -1,4 +1,114 @@
-(* placeholder while the proofs are being built *)
-From SV Require Import Compare.
-Theorem C06_placeholder : True. Proof. exact I. Qed.
-Print Assumptions C06_placeholder.
+(* PC06.v — property C06: data handed to a test lie inside the bound the test is told.
+   Model: Compare.v (mirrors Assertion.mvrs_to_data, Assertion.overstatement_assorter, Assorter.overstatement and the
+   `d, u = mvrs_to_data(..); asn.test.u = u; asn.test.test(d)` loop of Assertion.set_p_values in shangrla/core/Audit.py).
+   An assertion record `asn` carries an arbitrary assorter a_A, its bound a_ua, the margin however it was set, the pool
+   means, the contest's style flag / audit type / sample threshold and the u currently held by its test.
+   Decidable hypotheses: range_ok (0 <= A <= u_a on the sampled records), means_ok (stored pool means are numbers in
+   [0, u_a]; lemma pool_means_ok: the means computed by set_tally_pool_means from such an A are, or are NaN for an
+   empty pool), 1/2 <= u_a (a phantom CVR is scored 1/2; true of every assorter able to express "mean > 1/2"),
+   margin v < 2 u_a (in particular every margin computed from CVRs, see C03_identity; v > 0 is not needed). *)
+From SV Require Import Compare Compare_proofs.
+Open Scope Q_scope.
+
+(* comparison and ONEAudit: every datum is a number in [0, 2/(2 - v/u_a)] and that bound is the u returned *)
+Theorem C06_comparison :
+  forall (a : asn) (mvrs cvrs : list card) (use_all : bool) (d : list Xq) (u : Xq) (v : Q),
+  is_comparison (a_type a) = true ->
+  a_margin a = Fin v -> (1 # 2) <= a_ua a -> v < 2 * a_ua a ->
+  range_ok (a_A a) (a_ua a) (mvrs ++ cvrs) = true ->
+  means_ok (a_ua a) (a_means a) = true ->
+  mvrs_to_data a mvrs cvrs use_all = Ok (d, u) ->
+  u = Fin (2 / (2 - v / a_ua a)) /\ Forall (in_range (2 / (2 - v / a_ua a))) d.
+Proof. exact C06_comparison_lemma. Qed.
+Print Assumptions C06_comparison.
+
+(* polling: the data are the assorter values of the manual records, u is the assorter's own bound; never raises *)
+Theorem C06_polling :
+  forall (a : asn) (mvrs cvrs : list card) (use_all : bool),
+  a_type a = Polling ->
+  mvrs_to_data a mvrs cvrs use_all = Ok (map (fun m => Fin (a_A a m)) mvrs, Fin (a_ua a)) /\
+  (range_ok (a_A a) (a_ua a) mvrs = true -> Forall (in_range (a_ua a)) (map (fun m => Fin (a_A a m)) mvrs)).
+Proof. exact C06_polling_lemma. Qed.
+Print Assumptions C06_polling.
+
+(* the cards contributing are exactly, in order, the sampled pairs whose CVR lists the contest and whose sample number
+   is <= the contest's threshold (or use_all) when the contest uses style, all pairs otherwise; each datum is the
+   overstatement assorter of its pair; the sanity check of Assorter.overstatement (ValueError) can never fire *)
+Theorem C06_filter :
+  forall (a : asn) (mvrs cvrs : list card) (use_all : bool),
+  is_comparison (a_type a) = true ->
+  let contributing :=
+    filter (fun p => negb (a_style a) ||
+                     (has_contest (a_cid a) (snd p) && (use_all || Qle_bool (c_snum (snd p)) (a_thr a))))
+           (combine mvrs cvrs) in
+  mvrs_to_data a mvrs cvrs use_all <> Raise EValue /\
+  forall d u, mvrs_to_data a mvrs cvrs use_all = Ok (d, u) ->
+    Forall2 (fun p x => overstatement_assorter (a_A a) (a_cid a) (a_means a) (a_margin a) (a_ua a)
+                                               (fst p) (snd p) (a_style a) = Ok x) contributing d.
+Proof. exact C06_filter_lemma. Qed.
+Print Assumptions C06_filter.
+
+(* set_p_values: whatever u each test held before and however the margins were set, every test runs holding the u
+   that mvrs_to_data returned for its assertion, on exactly the data returned with it; afterwards test.u is that u and
+   nothing else in the assertion has changed *)
+Theorem C06_installed :
+  forall (mvrs cvrs : list card) (asns asns' : list asn) (calls : list call),
+  set_p_values asns mvrs cvrs = Ok (asns', calls) ->
+  length asns' = length asns /\ length calls = length asns /\
+  Forall2 (fun a (ac : asn * call) =>
+             exists d u, mvrs_to_data a mvrs cvrs false = Ok (d, u) /\
+                         call_u (snd ac) = u /\ call_d (snd ac) = d /\
+                         fst ac = set_test_u a u /\ a_test_u (fst ac) = u)
+          asns (combine asns' calls).
+Proof. exact C06_installed_lemma. Qed.
+Print Assumptions C06_installed.
+
+(* supporting: pool means computed by the model are NaN (empty pool) or numbers in [0, u_a] *)
+Theorem C06_pool_means_in_range :
+  forall A cid cvrs arg use_style ua means,
+  range_ok A ua cvrs = true ->
+  set_tally_pool_means A cid cvrs arg use_style = Ok means ->
+  forall p m, In (p, m) means -> m = NaN \/ in_range ua m.
+Proof. exact pool_means_ok. Qed.
+Print Assumptions C06_pool_means_in_range.
+
+(* ---- non-vacuity ---- *)
+Definition exA (c : card) : Q := match c_votes c with 0%Z => 0 | 1%Z => 1 # 2 | _ => 1 end.
+Definition ex_mvrs : list card :=
+  [mkcard false false 0 [7%Z] 0 0; mkcard true false 0 [] 0 1; mkcard false false 0 [8%Z] 0 1; mkcard false false 0 [7%Z] 0 2;
+   mkcard false false 0 [7%Z] 0 2].
+Definition ex_cvrs : list card :=
+  [mkcard false true 1 [7%Z] 1 2;          (* pooled, 2-vote overstatement *)
+   mkcard true false 0 [7%Z] 2 1;          (* phantom CVR, card not found *)
+   mkcard false false 0 [7%Z; 8%Z] 3 2;    (* MVR lacks the contest *)
+   mkcard false false 0 [8%Z] 4 2;         (* CVR does not list the contest: filtered out under style *)
+   mkcard false false 0 [7%Z] 9 0].        (* understatement, but beyond the threshold 5 *)
+Definition ex_asn (t : atype) (style : bool) (u0 : Xq) : asn :=
+  mkasn exA 7 style t 5 (Fin (1 # 4)) 1 (Some [(1%Z, Fin (3 # 4))]) u0.
+Example C06_comparison_nonvacuous :
+  let a := ex_asn OneAudit true (Fin 1) in
+  is_comparison (a_type a) = true /\ (1 # 2) <= a_ua a /\ (1 # 4) < 2 * a_ua a /\
+  range_ok (a_A a) (a_ua a) (ex_mvrs ++ ex_cvrs) = true /\ means_ok (a_ua a) (a_means a) = true /\
+  exists d u, mvrs_to_data a ex_mvrs ex_cvrs false = Ok (d, u) /\ length d = 3%nat.
+Proof.
+  simpl. repeat split; try (vm_compute; reflexivity); try (vm_compute; discriminate).
+  eexists. eexists. split; vm_compute; reflexivity.
+Qed.
+Example C06_filter_nonvacuous :
+  let a := ex_asn Comparison true (Fin 1) in
+  length (filter (fun p => negb (a_style a) ||
+                           (has_contest (a_cid a) (snd p) && (false || Qle_bool (c_snum (snd p)) (a_thr a))))
+                 (combine ex_mvrs ex_cvrs)) = 3%nat
+  /\ length (combine ex_mvrs ex_cvrs) = 5%nat.
+Proof. vm_compute. split; reflexivity. Qed.
+Example C06_polling_nonvacuous :
+  let a := ex_asn Polling false (Fin 1) in a_type a = Polling /\ range_ok (a_A a) (a_ua a) ex_mvrs = true.
+Proof. vm_compute. split; reflexivity. Qed.
+(* two assertions whose tests hold stale bounds (1 and NaN) before set_p_values *)
+Example C06_installed_nonvacuous :
+  exists asns' calls,
+    set_p_values [ex_asn Comparison true (Fin 1); ex_asn Polling false NaN] ex_mvrs ex_cvrs = Ok (asns', calls) /\
+    map call_u calls = [Fin (8 # 7); Fin 1] /\ map a_test_u asns' = [Fin (8 # 7); Fin 1].
+Proof.
+  eexists. eexists. split; [vm_compute; reflexivity|]. split; vm_compute; reflexivity.
+Qed.
